@@ -472,11 +472,23 @@ def r8_per_chunk_guard(chk, repo):
                   site_text="__assign_chunk_number_to_plugin: refusal covers transitive dependants", site={"function": f.qualname, "rule": "transitive"})
         lp = enclosing(n.stmt, (ast.For,))
         chk.check(lp is not None and norm(lp.iter).endswith(".lineage"), R, f, n.stmt, "the refusal is not evaluated for every plugin of the target's lineage", site_text="__assign_chunk_number_to_plugin: for every entry of plugin.lineage")
+    # the lineage walk (which tags every downstream data type with the chunk numbers) is reached
+    # whenever chunk numbers are given: the only early return is `chunk_number is None`
+    CN = f.params[2] if len(f.params) > 2 else "chunk_number"
+    walks = [n for n in cfg.stmt_nodes() if isinstance(n.stmt, ast.For) and norm(n.stmt.iter).endswith(".lineage")]
+    chk.check(len(walks) == 1, R, f, None, "the walk over the target's lineage that records the chunk numbers was not found", site_text="__assign_chunk_number_to_plugin: for last_provide in plugin.lineage")
+    for r_ in [n for n in cfg.stmt_nodes() if isinstance(n.stmt, ast.Return)]:
+        if walks and r_ in cfg.reachable(walks, "n"):
+            continue
+        chk.check((f"{CN} is None", True) in cfg.guard_facts(r_), R, f, r_.stmt, "the function can return before the lineage walk although chunk numbers were given (e.g. because the target does not read the per-chunk data type directly): the per-chunk result of a downstream data type is then stored under the key of the whole run, and every later request loads that fragment as the full data",
+                  site_text="__assign_chunk_number_to_plugin: early return only for chunk_number is None", site={"function": f.qualname, "rule": "lineage walk always reached"})
 
 
 WITNESSES = [
     W("per-chunk refusal only for direct dependants (the original defect)", "C16.R8", CONTEXT,
       "if issubclass(p.__class__, NOT_PER_CHUNK_ALLOWED_PLUGINS) and (\n                self.get_dependencies(last_provide) & set(chunk_number)\n            ):", "if issubclass(p.__class__, NOT_PER_CHUNK_ALLOWED_PLUGINS) and (\n                set(p.depends_on) & set(chunk_number)\n            ):"),
+    W("indirect dependants keep the whole-run key", "C16.R8", CONTEXT,
+      "if len(set(plugin.depends_on) & set(chunk_number)) > 1 and plugin.compute_takes_chunk_i:", "if not (set(plugin.depends_on) & set(chunk_number)):\n            return\n\n        if len(set(plugin.depends_on) & set(chunk_number)) > 1 and plugin.compute_takes_chunk_i:"),
     W("per-chunk refusal by class identity", "C16.R8", CONTEXT,
       "if issubclass(p.__class__, NOT_PER_CHUNK_ALLOWED_PLUGINS) and (", "if p.__class__ in NOT_PER_CHUNK_ALLOWED_PLUGINS and ("),
     W("overlap plugins allowed per chunk", "C16.R8", CONTEXT,
